@@ -15,7 +15,8 @@ RULE = ("Histories of ebb_serial.command / ebb_serial.query calls against a conf
         "each reply line preceded by 0..100 empty reads (weighted on 0, 1, 99, 100); or a faulty step "
         "(silence, error line, exception at the write or at read j). After every step: exactly one write equal "
         "to the request bytes, no exception, query returned a str; on conforming steps the returned text is "
-        "this request's own data line and nothing is left unread. Non-trivial: a step with >= 1 empty read or a "
+        "this request's own data line and nothing is left unread; when the link raises, query returns the data "
+        "line if it had already been read and '' otherwise. Non-trivial: a step with >= 1 empty read or a "
         "fault that is followed by a further step; distinct = distinct histories.")
 ASSUMPTIONS = [
     "after a faulty step no alignment is claimed (the statement claims it only against a conforming board); "
@@ -24,7 +25,7 @@ ASSUMPTIONS = [
 ]
 REQUIRED_CLASSES = ["nontrivial", "ok_query", "no_ok_query", "command", "empties=100", "empties>=1",
                     "fault_silence", "fault_errline", "fault_raise_write", "fault_raise_read", "no_port",
-                    "lowercase_no_ok", "first_read_empty"]
+                    "lowercase_no_ok", "first_read_empty", "fault_after_data_line", "fault_before_data_line"]
 QUICK_SHARDS = 4
 
 ebb_serial = sut.load("ebb_serial")
@@ -120,6 +121,17 @@ class Sim:
                                        ("raise_write" if int(fault[0]) == 0 else "raise_read")))
             if fault[1][0] == "silence" and is_query and int(fault[0]) <= 1 and result != "":
                 self.fail("%s: nothing arrived but query returned %r, expected ''" % (what, result))
+            if fault[1][0] == "raise" and is_query:
+                # what had arrived when the link failed decides the answer: the request's data line if it
+                # was already read, otherwise the empty string
+                reads = [entry[1] for entry in port.log[port.log_mark:] if entry[0] == "r"]
+                arrived = next((line for line in reads if line != b""), None)
+                expected = arrived.decode("ascii") if arrived is not None else ""
+                self.flags.add("fault_after_data_line" if arrived is not None else "fault_before_data_line")
+                if result != expected:
+                    self.fail("%s: the link failed %s, but query returned %r, expected %r"
+                              % (what, "after this request's data line had been read" if arrived is not None
+                                 else "before anything arrived", result, expected))
             port.reset_input_buffer()          # no alignment claimed after a fault
             port.silent = False
             self.pending_interest = True
@@ -194,7 +206,8 @@ def grid():
                 yield [[kind, text, [e1, e2], None], ["query", "QS\r", [0, 0], None],
                        ["query", "V\r", [1, 0], None]]
         for fault in ([0, ["silence"]], [1, ["errline"]], [0, ["raise", "SerialException"]],
-                      [1, ["raise", "OSError"]], [2, ["raise", "SerialException"]]):
+                      [1, ["raise", "OSError"]], [2, ["raise", "SerialException"]],
+                      [3, ["raise", "SerialException"]], [3, ["raise", "RuntimeError"]], [4, ["raise", "OSError"]]):
             yield [[kind, text, [1, 0], fault], ["query", "QB\r", [0, 0], None]]
 
 
@@ -207,7 +220,7 @@ def grid_body(ctx, case):
 
 def run(ctx):
     ctx.exhaustive("grid", grid(), grid_body,
-                   "37 request kinds x {0,1,99,100} x {0,1,100} empties + 5 fault placements, each followed by probes")
+                   "37 request kinds x {0,1,99,100} x {0,1,100} empties + 8 fault placements, each followed by probes")
     machine = type("LegacySerialMachine", (Machine,), {"ctx": ctx})
     ctx.machine("histories", machine, quick=1200, thorough=80000, steps=20)
 
